@@ -111,7 +111,8 @@ def check_C03(run):
                 "product with Not Defined Modified metrics (%s) judged by composition of TLC-emitted tables, a seeded raw subset and every "
                 "disagreement validated by TLC; (c) seeded random vectors through Decode with permuted/omitted tokens; distinct = distinct observation"
                 % ("whole product" if x["concrete_product_full"] else "seeded sample"),
-                evaluations=s["observations"], distinct_nontrivial=s["distinct"], exhaustive=bool(x["concrete_product_full"]))
+                evaluations=x["eff_domain_x_temporal"] + x["concrete_product_scanned"] + x["decoded"] + x.get("all_not_defined_spellings_decoded", 0),
+                distinct_nontrivial=s["distinct"], exhaustive=bool(x["concrete_product_full"]))
 
 
 # ---------------------------------------------------------------------------
@@ -261,7 +262,7 @@ def tlc_strings(run, fam, mode, depth, seeds, tag):
     return out, len(seen)
 
 
-def lang_check(run, fams, pid_for, modes, deep, valid, edits, nbytes):
+def lang_check(run, fams, pid_for, modes, deep, valid, edits, nbytes, allbt=False):
     """modes: list of (mode, depth, seeds).  Returns (observations, distinct events, strings from TLC)."""
     tot_obs = tot_dist = tot_tlc = 0
     for fam in fams:
@@ -275,7 +276,8 @@ def lang_check(run, fams, pid_for, modes, deep, valid, edits, nbytes):
             for p in files:
                 o.write(open(p).read())
         s = harness_json(run, ["lang", "-fam", fam, "-in", allin, "-valid", str(valid), "-edits", str(edits), "-bytes", str(nbytes), "-steps", "4000",
-                               "-deep=%s" % ("true" if deep else "false"), "-out", run.work, "-tier", run.tier, "-pid", run.pid])
+                               "-deep=%s" % ("true" if deep else "false"), "-allbt=%s" % ("true" if allbt else "false"),
+                               "-out", run.work, "-tier", run.tier, "-pid", run.pid])
         verdicts = vlib.validate_trace(run, "Trace_Lang", s["chunks"], pid=pid_for(fam), label="lang-" + fam)
         judge(run, verdicts, describe=lambda ev: (ev.get("s") or ev.get("a", {}).get("s", ""))[:200])
         tot_obs += s["observations"]
@@ -289,11 +291,12 @@ def lang_check(run, fams, pid_for, modes, deep, valid, edits, nbytes):
 def lang_modes(run):
     if run.quick:
         return [("char", "1", "all"), ("token", "1", "all")]
-    return [("char", "1", "all"), ("token", "1", "all"), ("char", "2", "base"), ("token", "2", "base")]
+    # token-level depth 2 is 6.2e6 strings for one v2 seed (measured): beyond what can be replayed and validated
+    return [("char", "1", "all"), ("token", "1", "all"), ("char", "2", "base")]
 
 
 LANG_RULE = ("inputs: (i) every string TLC reaches in MC_Lang (character-level and token-level edit neighbourhoods of the seed vectors, "
-             "quick: 1 edit of every seed, thorough: + 2 edits of the base seed), (ii) seeded random accepted vectors of all levels with "
+             "quick: 1 edit of every seed, thorough: + 2 character edits of the base seed), (ii) seeded random accepted vectors of all levels with "
              "permuted/omitted tokens, (iii) seeded random edits of those, (iv) seeded random byte strings and hand-picked degenerate strings; "
              "each input x the three decoders of the family is one event validated by TLC against Vector.tla; distinct = distinct event")
 
@@ -310,10 +313,10 @@ def check_C08(run):
     return dict(level=MC, rule=LANG_RULE, evaluations=obs, distinct_nontrivial=dist, exhaustive=False)
 
 
-def _lang_both(run, deep):
-    modes = [("token", "1", "all")] if run.quick else [("token", "1", "all"), ("char", "1", "all"), ("token", "2", "base")]
+def _lang_both(run, deep, allbt=False):
+    modes = [("token", "1", "all")] if run.quick else [("token", "1", "all"), ("char", "1", "all"), ("char", "2", "base")]
     return lang_check(run, ["v3", "v2"], lambda f: run.pid, modes, deep, 40000 if run.quick else 1000000,
-                      20000 if run.quick else 300000, 2000 if run.quick else 50000)
+                      20000 if run.quick else 300000, 2000 if run.quick else 50000, allbt=allbt)
 
 
 def check_C09(run):
@@ -335,9 +338,10 @@ def check_C11(run):
 
 
 def check_C14(run):
-    obs, dist, n = _lang_both(run, True)
+    obs, dist, n = _lang_both(run, True, allbt=True)
     return dict(level=MC, rule=LANG_RULE + "; for accepted inputs the lower-level views and an independent lower-level decode of the projected "
-                "vector are recorded", evaluations=obs, distinct_nontrivial=dist, exhaustive=False)
+                "vector are recorded; all 73,629 v2 base/temporal vectors (a seventh also with an environmental group) and every v3 base vector "
+                "with seeded temporal / environmental values are included", evaluations=obs, distinct_nontrivial=dist, exhaustive=False)
 
 
 # ---------------------------------------------------------------------------
